@@ -111,7 +111,12 @@ def run_scratch(name):
             meta.update(applies=False, status='does not apply to the fixed tree')
         else:
             meta['applies'] = True
-            meta['repo_tests_with_patch'] = tests(wt)
+            ci = meta.get('confirmed_independently') or {}
+            if os.environ.get('RUN_SEEDS_SKIP_TESTS') and ci.get('tests_passed') and ci.get('repo_head') == head[:7]:
+                # the independent confirmation ran the whole suite with this patch on this very tree
+                meta['repo_tests_with_patch'] = {'passed': int(ci['tests_passed']), 'failed': int(ci.get('tests_failed') or 0)}
+            else:
+                meta['repo_tests_with_patch'] = tests(wt)
             c = sh(f'WTCHECK_SCRATCH=/tmp/rs/c WTCHECK_LINES=400 {ROOT}/tools/wtcheck.sh {wt} {meta["property"]} quick')
             out = c.stdout + c.stderr
             m = re.search(r'exit=(\d+)', out)
